@@ -31,7 +31,8 @@ THEOREMS = ["C16_refines", "C16_no_lost_update", "C16_fresh_commit_visible", "C1
 
 ID_POOL = ["a", "http://x/a b?c#d%e", "é/ü", "x/y z", "p%2Fq", "a+b&c=d", ".", "..", "~t_-", "€", "%", "a\tb",
            "urn:x:y#frag?q=1", "A.b", "?#"]
-FAULTS = [("status", 401), ("status", 404), ("status", 409), ("status", 412), ("status", 500), ("garbage",), ("drop",)]
+FAULTS = [("status", 401), ("status", 404), ("status", 409), ("status", 412), ("status", 500), ("garbage",),
+          ("garbage", "empty"), ("garbage", "truncated"), ("drop",)]     # non-JSON body: text, nothing, half a document
 USER, PASSWORD = "verif", "s3cret"
 
 
@@ -324,9 +325,17 @@ def run_sdk(case):
                 # a faulted request: an error of a documented class, never success; server unchanged
                 if snap1 != snap0:
                     bad(k, kind, "fault-changed-server", f"{kind} under fault {fault[1]} changed the server")
+                if isinstance(exc, KeyError):
+                    # KeyError is the store's "missing id" / "duplicate id" answer: under a fault only where the server
+                    # said so (404; 409 to add's PUT; a HEAD answer without revision in a plain discard)
+                    ft = fault[1]
+                    if not (ft == ["status", 404] or (ft == ["status", 409] and kind == "add")
+                            or (ft[0] == "garbage" and kind == "discard" and not op[2])):
+                        bad(k, kind, "fault-reported-as-keyerror", f"{kind} under fault {ft} raised KeyError - a transport / "
+                            "server error reported as a missing or duplicate identifier")
                 if exc is None:
                     allowed = kind in ("cid", "cobj") and ((result is False and fault[1] == ["status", 404])
-                                                           or (result is True and fault[1] == ["garbage"]))
+                                                           or (result is True and fault[1][0] == "garbage"))
                     if not allowed:
                         bad(k, kind, "fault-reported-as-success", f"{kind} under fault {fault[1]} returned normally")
             else:
@@ -603,6 +612,37 @@ def gen_scenario(rng):
         ops.append([["get", a], None])
     v = 20
     r3 = rng.random()
+    if r3 < .18:
+        # (4) a long life of ONE document (well beyond ten revisions: CouchDB revisions are "<generation>-<hash>",
+        #     10-... sorts before 9-... as a string), both actors writing in turn; every commit / safe delete
+        #     from an up-to-date replica must keep being accepted, every stale one refused
+        for _ in range(rng.randint(8, 13)):
+            v += 1
+            ops += rng.choice([
+                [[["modify", 0, v, rng.randrange(2)], None], [["commit", 0], None]],
+                [[["extput", a, v, rng.randrange(2)], None], [["update", 0], None]],
+                [[["extput", a, v, rng.randrange(2)], None], [["get", a], None]],
+                [[["extput", a, v, rng.randrange(2)], None], [["commit", 0], None], [["updatec", 0, 0], None]],
+                [[["modify", 0, v, 0], None], [["commitc", 0, 0], None], [["get", a], None]],
+                [[["discard", 0, rng.randrange(2)], None], [["add", 0], None]],
+                [[["extdel", a], None], [["add", 0], None]],
+            ])
+        ops += [[["modify", 0, v + 1, 1], None], [["commit", 0], None], [["get", a], None],
+                [rng.choice([["discard", 0, 1], ["len"]]), None]]
+        return {"pool": pool, "ops": ops}
+    if r3 < .3:
+        # (5) the replica returns to a payload it has committed before (A, B, A): the commit of A must reach the
+        #     server again; a stale replica must be refused even if it has not changed since its last commit
+        ops += [[["modify", 0, v, 0], None], [["commit", 0], None]]                      # A
+        if rng.random() < .5:
+            ops += [[["extput", a, v + 1, 0], None], [["update", 0], None]]             # B (second actor), seen
+        else:
+            ops += [[["modify", 0, v + 1, 0], None], [["commit", 0], None]]             # B (this client)
+        ops += [[["modify", 0, v, 0], None], [rng.choice([["commit", 0], ["commitc", 0, 0]]), None], [["get", a], None]]
+        ops += [[["extput", a, v + 2, rng.randrange(2)], None], [["commit", 0], None],   # unchanged but stale
+                [["get", a], None], [["update", 0], None], [["commit", 0], None], [["len"], None]]
+        return {"pool": pool, "ops": ops}
+    r3 = rng.random()
     if r3 < .3:
         # (3) the second actor changes one part, the client refreshes through (an element of) the other part,
         #     changes it and commits: both changes must survive, or the commit must be refused
@@ -800,7 +840,7 @@ def run(chk):
             cases.append(json.load(open(os.path.join(corpus, fn))))
     fm = fault_matrix()
     cases += fm
-    chk.cov["fault_matrix"] = f"{len(fm)} directed cases: 12 operations x request position x 7 faults"
+    chk.cov["fault_matrix"] = f"{len(fm)} directed cases: 12 operations x request position x 9 faults"
     for j in range(nseq):
         cases.append(gen_scenario(rng) if j % 4 == 3 else gen_case(rng, maxlen))
     chk.cov["scripted_scenarios"] = (f"{nseq // 4} histories: non-synchronising calls between the second actor's write "
@@ -899,7 +939,7 @@ def run(chk):
                                   "obeys CouchDB's documented document-API rules; the model client is compared with the real "
                                   "client on every run against a loopback fake of that API with fault injection. No real "
                                   "CouchDB, no network.",
-                      rule="corpus, the fault matrix (12 operations x request position x 7 faults), then seeded random "
+                      rule="corpus, the fault matrix (12 operations x request position x 9 faults), then seeded random "
                            "histories of 3-12 (quick) / 3-16 (thorough) calls over 1-3 identifiers drawn from a pool with "
                            "'/', '?', '#', '%', spaces, tabs, non-ASCII, '.', '..', 1-5 local objects (several per id), a "
                            "second actor writing/deleting behind the SDK's back, and a fault on 0/15/40 % of the calls; "
